@@ -131,4 +131,35 @@ def run(chk, tier):
         chk.expect(not hits, "de-panic-free", short, "panic-sites", "none", hits, loc=C.fn_loc(f))
     chk.floor("de-panic-free", "MIR bodies of dicom_json::de", n_bodies, 25)
     chk.analysed["de_bodies"] = n_bodies
+    # ---------- rule 4: the number serializer narrows only through checked conversions
+    chk.rule("ser-no-lossy-cast", "no narrowing or sign-changing `as` cast in dicom_json::ser (64-bit integers are narrowed with NumCast::from, which fails "
+             "instead of wrapping, and fall back to the exact decimal string)")
+    order = {"u8": 8, "i8": 8, "u16": 16, "i16": 16, "u32": 32, "i32": 32, "u64": 64, "i64": 64, "usize": 64, "isize": 64, "u128": 128, "i128": 128}
+    n_ser = 0
+    for f in d["fns"]:
+        p = f["path"]
+        if "dicom_json::ser" not in p:
+            continue
+        n_ser += 1
+        bad = []
+        for bb, j, s in M.assigns(f):
+            r = s["r"]
+            if r["rv"] != "cast":
+                continue
+            fr, to = r["from"], r["to"]
+            if r["kind"] == "IntToInt" and fr in order and to in order:
+                narrowing = order[to] < order[fr]
+                sign_change = (fr[0] != to[0]) and not (fr[0] == "u" and order[to] > order[fr])
+                if narrowing or sign_change:
+                    bad.append(f"{fr} as {to}@{s['l']}")
+            elif r["kind"] in ("FloatToInt", "FloatToFloat") and fr != to and not (fr == "f32" and to == "f64"):
+                bad.append(f"{fr} as {to}@{s['l']}")
+        short = re.sub(r"<[^<>]*>", "", p.split("dicom_json::ser")[-1])[-70:]
+        chk.expect(not bad, "ser-no-lossy-cast", short, "casts", "none", bad, loc=C.fn_loc(f))
+    chk.floor("ser-no-lossy-cast", "MIR bodies of dicom_json::ser", n_ser, 20)
+    hn2 = [x for x in d["hir"] if x["path"].endswith("AsNumbers<'_> as serde_core::ser::Serialize>::serialize")]
+    if len(hn2) != 1:
+        raise facts.MissingAnchor("AsNumbers::serialize")
+    ncast = [x for c, x in H.calls(hn2[0]["body"]) if c and c.endswith("NumCast::from")]
+    chk.expect(len(ncast) == 2, "ser-no-lossy-cast", "AsNumbers::serialize", "64-bit-narrowing-checked", "NumCast::from for I64 and U64", len(ncast), loc=C.fn_loc(hn2[0]))
     chk.undecided.append("equality of the data set after the round trip; panics inside serde_json/base64/serde (trusted boundary)")
